@@ -231,7 +231,115 @@ def extract(strict=True):
         "intrinsic": dict(S.INTRINSIC_MODS), "licenses": lic,
         "favicon": str(S.FAVICON_PATH),
         "sentinels": _sentinels(S, strict),
+        "source": _source_lookup(ford, S, strict),
     }
+
+
+def source_lookup(ford, S):
+    """Where `ford.load_settings` looks for the manifest, read from the source with `ast`:
+
+    * `lookups`: the arguments of the `load_toml_settings(<arg>)` calls of `load_settings`, in source order, each
+      classified as `projectDir` (the function's `directory` parameter) or `cwd` (an expression that denotes the
+      working directory: `Path.cwd()`, `os.getcwd()`, `Path(".")`, `"."`, `os.curdir`, `Path()`); anything else raises;
+    * the metadata fallback `load_markdown_settings(directory, ...)` must be there and be given `directory`;
+    * `initialize` must compute `directory` as `os.path.dirname(args.project_file.name)` and hand the same name
+      to `load_settings` and `parse_arguments`;
+    * `manifest`: the file name joined to the directory in `load_toml_settings` and the chain of
+      `if "<key>" not in <settings...>: return None` tests = the table path, which must be the path subscripted in the
+      `ProjectSettings(**settings[...][...])` call.
+    """
+    import ast
+    import inspect
+    import textwrap
+
+    def fn_ast(f):
+        tree = ast.parse(textwrap.dedent(inspect.getsource(f)))
+        node = tree.body[0]
+        if not isinstance(node, ast.FunctionDef):
+            raise RuntimeError(f"{f.__name__}: not a plain function")
+        return node
+
+    def callee(c):
+        f = c.func
+        return f.id if isinstance(f, ast.Name) else f.attr if isinstance(f, ast.Attribute) else None
+
+    def classify(arg, param):
+        src = ast.unparse(arg).replace(" ", "")
+        if isinstance(arg, ast.Name) and arg.id == param:
+            return "projectDir"
+        cwd_spellings = {"pathlib.Path.cwd()", "Path.cwd()", "os.getcwd()", "pathlib.Path('.')", "Path('.')", "'.'",
+                         "os.curdir", "pathlib.Path()", "Path()", "pathlib.Path('')", "Path('')", "''",
+                         "os.path.abspath('.')", "os.path.curdir", "pathlib.Path(os.getcwd())", "Path(os.getcwd())",
+                         "pathlib.Path.cwd().absolute()", "Path.cwd().resolve()", "pathlib.Path.cwd().resolve()"}
+        if src in cwd_spellings:
+            return "cwd"
+        raise RuntimeError(f"load_settings: load_toml_settings({ast.unparse(arg)}) - directory expression of unknown shape")
+
+    ls = fn_ast(ford.load_settings)
+    params = [a.arg for a in ls.args.args]
+    if "directory" not in params:
+        raise RuntimeError("load_settings has no `directory` parameter")
+    lookups, md_fallback = [], 0
+    for node in ast.walk(ls):
+        if isinstance(node, ast.Call) and callee(node) == "load_toml_settings":
+            if len(node.args) != 1 or node.keywords:
+                raise RuntimeError("load_settings: load_toml_settings call of unknown shape")
+            lookups.append((node.lineno, node.col_offset, classify(node.args[0], "directory")))
+        if isinstance(node, ast.Call) and callee(node) == "load_markdown_settings":
+            if not node.args or classify(node.args[0], "directory") != "projectDir":
+                raise RuntimeError("load_settings: load_markdown_settings is not given the project directory")
+            md_fallback += 1
+    if not lookups:
+        raise RuntimeError("load_settings: no load_toml_settings call found")
+    if md_fallback != 1:
+        raise RuntimeError("load_settings: expected exactly one load_markdown_settings fallback")
+    lookups = [k for _, _, k in sorted(lookups)]
+    # initialize(): directory = os.path.dirname(args.project_file.name), passed on unchanged
+    ini = fn_ast(ford.initialize)
+    assigns = [n for n in ast.walk(ini) if isinstance(n, ast.Assign) and any(
+        isinstance(t, ast.Name) and t.id == "directory" for t in n.targets)]
+    if len(assigns) != 1 or ast.unparse(assigns[0].value).replace(" ", "") != "os.path.dirname(args.project_file.name)":
+        raise RuntimeError("initialize: `directory = os.path.dirname(args.project_file.name)` not found")
+    for name, pos in (("load_settings", 1), ("parse_arguments", 3)):
+        calls = [n for n in ast.walk(ini) if isinstance(n, ast.Call) and callee(n) == name]
+        if len(calls) != 1 or len(calls[0].args) <= pos or ast.unparse(calls[0].args[pos]) != "directory":
+            raise RuntimeError(f"initialize: {name} is not called with `directory` as argument {pos}")
+    # load_toml_settings: manifest name and table path
+    lt = fn_ast(S.load_toml_settings)
+    names = [n.right.value for n in ast.walk(lt) if isinstance(n, ast.BinOp) and isinstance(n.op, ast.Div)
+             and isinstance(n.right, ast.Constant) and isinstance(n.right.value, str)]
+    if len(names) != 1:
+        raise RuntimeError("load_toml_settings: manifest file name not found")
+    tests = []
+    for n in lt.body:
+        if isinstance(n, ast.If) and isinstance(n.test, ast.Compare) and len(n.test.ops) == 1 \
+                and isinstance(n.test.ops[0], ast.NotIn) and isinstance(n.test.left, ast.Constant) \
+                and len(n.body) == 1 and isinstance(n.body[0], ast.Return) \
+                and isinstance(n.body[0].value, ast.Constant) and n.body[0].value.value is None:
+            tests.append((n.test.left.value, ast.unparse(n.test.comparators[0])))
+    path = [k for k, _ in tests]
+    for i, (k, where) in enumerate(tests):
+        exp = "settings" + "".join(f"[{p!r}]" for p in path[:i])
+        if where != exp:
+            raise RuntimeError(f"load_toml_settings: `{k!r} not in {where}` - expected a test on {exp}")
+    kwcalls = [n for n in ast.walk(lt) if isinstance(n, ast.Call) and callee(n) == "ProjectSettings"]
+    want = "settings" + "".join(f"[{p!r}]" for p in path)
+    if len(kwcalls) != 1 or kwcalls[0].args or len(kwcalls[0].keywords) != 1 or kwcalls[0].keywords[0].arg is not None \
+            or ast.unparse(kwcalls[0].keywords[0].value) != want or not path:
+        raise RuntimeError(f"load_toml_settings: ProjectSettings(**{want}) not found")
+    isfile = [n for n in lt.body if isinstance(n, ast.If) and ast.unparse(n.test) == "not filename.is_file()"]
+    if len(isfile) != 1:
+        raise RuntimeError("load_toml_settings: `if not filename.is_file(): return None` not found")
+    return {"lookups": lookups, "manifest": names[0], "table_path": path}
+
+
+def _source_lookup(ford, S, strict):
+    try:
+        return source_lookup(ford, S)
+    except RuntimeError:
+        if strict:
+            raise
+        return {"lookups": ["projectDir"], "manifest": "fpm.toml", "table_path": ["extra", "ford"]}
 
 
 def _sentinels(S, strict):
@@ -289,6 +397,12 @@ def translate():
     out.append("def sentinelTests : List (Str × Bool × Str × SentinelRepl) := [")
     out.append(",\n".join(f"  ({lstr(f)}, {'true' if c else 'false'}, {lstr(sn)}, SentinelRepl.{r})" for f, c, sn, r in t["sentinels"]))
     out.append("]\n")
+    src = t["source"]
+    out.append("/-- the `load_toml_settings(<dir>)` attempts of `ford.load_settings`, in source order (round 6) -/")
+    out.append("def tomlLookups : List LookupDir := [" + ", ".join("LookupDir." + k for k in src["lookups"]) + "]\n")
+    out.append("/-- the file `load_toml_settings` opens in that directory, and the table it takes the options from -/")
+    out.append(f"def manifestName : Str := {lstr(src['manifest'])}")
+    out.append("def manifestTablePath : List Str := [" + ", ".join(lstr(k) for k in src["table_path"]) + "]\n")
     out.append("/-- `parse_arguments` puts the final output directory (after `--config` / `-o`) on `exclude_dir` when it is not")
     out.append("    there yet (repair 4833068); decided by running the real `parse_arguments` with `-o` -/")
     out.append(f"def excludeFinalOutputDir : Bool := {'true' if probe_exclude_final_output() else 'false'}\n")
